@@ -141,7 +141,8 @@ PLAN = {
 OWN = {
     "C01": {"eval_fn": "*"},
     "C02": {"arith": "*", "fn_info": "*"},
-    "C03": {"partial_fn": "*", "inst_partial": "*", "commute": "*"},
+    "C03": {"partial_fn": "*", "inst_partial": "*", "commute": "*",
+            "evaluate": ["objective", "constraints_bag", "feasible", "feasible_relaxed", "state_fixed", "state_given", "reject_iff"]},
     "C04": {"subst_fn": "*", "inst_subst": "*", "deps_order": "*",
             "evaluate": ["state_dependent", "reject_iff", "objective", "constraints_bag", "state_domain"]},
     "C05": {"evaluate": "*"},
@@ -153,8 +154,10 @@ OWN = {
     "C11": {"pubo": "*", "qubo": "*"},
     "C12": {"log_encode": "*"},
     "C13": {"slack_convert": "*", "slack_add": "*"},
-    "C14": {"relax": "*", "restore": "*"},
-    "C15": {"as_min": "*", "best": "*"},
+    # the evaluations interleaved with the histories decide C14's "values and feasibility are invariant, relaxed
+    # feasibility depends on the active constraints only, the reason is recorded"
+    "C14": {"relax": "*", "restore": "*", "evaluate": ["constraints_bag", "feasible", "feasible_relaxed", "reject_iff", "objective"]},
+    "C15": {"as_min": "*", "best": "*", "evaluate": ["objective", "reject_iff"]},
     "C16": {"bound_op": "*", "eval_bound": "*", "content_factor": "*"},
     "C17": {"mps_load": "*"},
     "C18": {"mps_roundtrip": "*"},
